@@ -1,9 +1,9 @@
 SPECIFICATION Spec
 CONSTANTS
   Names = {"a", "A", "b"}
-  Vals = {"1", "2"}
-  SetPathKids = 0
-  MaxKids = 3
+  Vals = {"1"}
+  SetPathKids = 2
+  MaxKids = 1
 INVARIANT SetGet
 INVARIANT DelShrinks
 INVARIANT MergeOne
